@@ -129,6 +129,9 @@ def print_assumptions(theorems, requires):
         f.write("From W2W Require Import %s.\n" % " ".join(requires))
         for t in theorems:
             f.write('Goal True. idtac "@@@ %s". exact I. Qed.\nPrint Assumptions %s.\n' % (t, t))
+        f.write("Set Printing Width 100000.\n")
+        for t in theorems:
+            f.write('Goal True. idtac "### %s". exact I. Qed.\nCheck %s.\n' % (t, t))
     rc, out = sh(["coqc", "-noglob", "-Q", COQ, "W2W", path], timeout=600)
     for ext in (".v", ".vo", ".vok", ".vos", ".glob"):
         try:
@@ -138,11 +141,33 @@ def print_assumptions(theorems, requires):
     res = {}
     if rc != 0:
         return None, out
-    parts = out.split("@@@ ")
+    head, _, stmts = out.partition("### ")
+    parts = head.split("@@@ ")
     for part in parts[1:]:
         name, _, rest = part.partition("\n")
         res[name.strip()] = " ".join(rest.split())
+    STATEMENTS.clear()
+    for part in ("### " + stmts).split("### ")[1:]:
+        name, _, rest = part.partition("\n")
+        STATEMENTS[name.strip()] = " ".join(rest.split())
     return res, out
+
+
+STATEMENTS = {}
+PINS = os.path.join(COQ, "pins.json")
+
+
+def pinned_statements_ok(theorems):
+    """The statement of every property theorem (as printed by Check) must equal the one pinned in coq/pins.json
+    (written by tools/pin_statements.py): a theorem cannot be weakened quietly."""
+    try:
+        pins = json.load(open(PINS))
+    except (OSError, ValueError):
+        return False, "coq/pins.json missing or unreadable"
+    bad = [t for t in theorems if pins.get(t) != STATEMENTS.get(t)]
+    if bad:
+        return False, "statement differs from the pinned one: " + ", ".join(bad)
+    return True, ""
 
 
 def coqchk(requires):
